@@ -1,8 +1,11 @@
 (* C12 — The OPL parser is total: any input terminates with a diagnosis.
-   Proved for the lexer and for the position arithmetic, on ALL byte strings; the parser proper is a fuelled model
-   whose agreement with the real parser (namespaces, every error and its position) is checked on every run. *)
+   Proved for the lexer and for the position arithmetic, on ALL byte strings, and for the parser proper on ALL token
+   lists: every loop of the parser model runs on fuel computed from the number of remaining tokens, and that fuel is
+   never what stops it (any larger amount gives the same result), so every loop runs at most (remaining tokens + 1)
+   times; the agreement of the model with the real parser (namespaces, every error and its position) is checked on
+   every run. *)
 From Coq Require Import List Bool Arith NArith.
-From Keto Require Import Base.Bytes Opl.Lexer Opl.LexerProofs Opl.SrcPos Opl.SrcPosProofs.
+From Keto Require Import Base.Bytes Engine.Ast Opl.Lexer Opl.LexerProofs Opl.SrcPos Opl.SrcPosProofs Opl.Parser Opl.ParserFuel.
 Import ListNotations.
 
 (* every state function makes progress: unless it stops, an item consumes at least one byte and lies inside the input *)
@@ -24,3 +27,27 @@ Theorem C12_line_bounds : forall s pos, 1 <= fst (to_src_pos s pos) <= newlines 
 Proof. exact line_bounds. Qed.
 Theorem C12_line_monotone : forall s a b, a <= b -> fst (to_src_pos s a) <= fst (to_src_pos s b).
 Proof. exact line_monotone. Qed.
+
+(* the parser proper, on every token list: the fuel of the top-level loop is never binding ... *)
+Theorem C12_parser_fuel_never_binding : forall ts extra,
+  parse_top (S (length ts) + extra) (ParserFuel.start ts) = parse_top (S (length ts)) (ParserFuel.start ts).
+Proof. exact parser_fuel_is_never_binding. Qed.
+(* ... (start ts is the state parse_tokens starts from) ... *)
+Theorem C12_parse_tokens_from_start : forall ts,
+  parse_tokens ts = (let p := parse_top (S (length ts)) (ParserFuel.start ts) in
+                     match errs p with [] => (nss p, flat_map (run_check (nss p)) (checks p)) | es => (nss p, es) end).
+Proof. exact parse_tokens_from_start. Qed.
+(* ... nor is the fuel of any inner loop, at the amount the parser passes: class bodies, related blocks, permits blocks,
+   type unions, permission expressions, and the flattening of rewrites *)
+Theorem C12_inner_loops_fuel_never_binding : forall extra,
+  (forall p, parse_class_loop (S (len p) + extra) p = parse_class_loop (S (len p)) p) /\
+  (forall p, parse_related_loop (S (len p) + extra) p = parse_related_loop (S (len p)) p) /\
+  (forall p, parse_permits_loop (S (len p) + extra) p = parse_permits_loop (S (len p)) p) /\
+  (forall p endt acc, parse_type_union (S (len p) + extra) endt acc p = parse_type_union (S (len p)) endt acc p) /\
+  (forall p final depth root expect,
+     parse_exprs (S (2 * len p) + extra) final depth root expect p = parse_exprs (S (2 * len p)) final depth root expect p) /\
+  (forall op cs, simplify_children (S (children_size cs) + extra) op cs = simplify_children (S (children_size cs)) op cs).
+Proof. exact inner_fuel_is_never_binding. Qed.
+(* the parser only moves forward: no step ever gives tokens back *)
+Theorem C12_parser_moves_forward : forall ts f, len (parse_top f (ParserFuel.start ts)) <= length ts.
+Proof. exact parser_only_moves_forward. Qed.
